@@ -572,7 +572,8 @@ def exec_module_constant(ns, modname, name, _depth=0, resolve=None):
             val = n.value
         if val is None:
             continue
-        ok = (ast.Constant, ast.Name, ast.Attribute, ast.BinOp, ast.UnaryOp, ast.Tuple, ast.Load, ast.operator, ast.unaryop)
+        ok = (ast.Constant, ast.Name, ast.Attribute, ast.BinOp, ast.UnaryOp, ast.Tuple, ast.Load, ast.operator, ast.unaryop,
+              ast.Dict, ast.List, ast.Set)       # literal lookup tables (parser defaults, variable tables)
         if not all(isinstance(x, ok) for x in ast.walk(val)):
             return False
         for x in ast.walk(val):
